@@ -346,6 +346,21 @@ Definition sstep (s : sess) (o : op) (ts : list tok) : R3 :=
   | OStop => do_stop s
   end.
 
+(* Stop arriving while operation o is inside its file-system call and holds its fid's lock
+   (the connection goes away while a request is still being served).  Modelled for the
+   operations that do nothing but Unlock after that call - stat, wstat, read, write: the call
+   has been made (its outcome is the token's), Stop runs on the table with that SFid locked -
+   it does not consult the locks - and then the operation returns and unlocks.
+   First component: Stop (state, result, its calls); second: the operation as it returns. *)
+Definition op_simple_fid (o : op) : option N :=
+  match o with OStat f | OWStat f | ORead f | OWrite f => Some f | _ => None end.
+Definition inflight_stop (s : sess) (o : op) (ts : list tok) : R3 * R3 :=
+  let '(s1, r, cs) := sstep s o ts in
+  match op_simple_fid o with
+  | Some f => let '(s2, r2, cs2) := do_stop (lock f s1) in ((s2, r2, cs2), (unlock f s2, r, cs))
+  | None => ((s1, r, cs), (s1, r, cs))
+  end.
+
 (* A run stops at the first operation that hangs (the harness cannot go on
    either: the goroutine never returns).  One element per executed operation:
    the state after it, its result, the file-system calls it made. *)
